@@ -243,7 +243,11 @@ func answerChain(q dns.Question, zone string, answer []dns.RR) []dns.RR {
 			if sig, ok := rr.(*dns.RRSIG); ok && sig.TypeCovered == dns.TypeDNAME {
 				covers = true
 			}
-			if covers && !keep[i] && dns.CountLabel(cur) > dns.CountLabel(owner) && dns.IsSubDomain(owner, cur) {
+			// Its owner has to lie in the sender's zone like everything else
+			// kept here: a DNAME owned above the zone ("test. DNAME ..." from
+			// the servers of example.test.) is the parent's to publish.
+			if covers && !keep[i] && dns.CountLabel(cur) > dns.CountLabel(owner) && dns.IsSubDomain(owner, cur) &&
+				dnsutil.NameInZone(owner, zone) {
 				keep[i] = true
 				kept++
 			}
